@@ -35,13 +35,17 @@ SPECIAL = {
 }
 
 
-def wide_knob(rng: random.Random, tier: str, p: float) -> dict | None:
-    """Drawn once per scenario; None for an ordinary (narrow) world."""
+def wide_knob(rng: random.Random, tier: str, p: float, cap: int = 1030) -> dict | None:
+    """Drawn once per scenario; None for an ordinary (narrow) world.  cap: the largest
+    population the check can afford (checks that build many simulations per scenario
+    stay below the huge sizes)."""
     if not chance(rng, p):
         return None
     t = "thorough" if tier == "thorough" else "quick"
+    sizes = HUGE_SIZES[t] if chance(rng, 0.15) else WIDE_SIZES[t]
+    sizes = [n for n in sizes if n <= cap] or [n for n in WIDE_SIZES[t] if n <= cap]
     return {
-        "persons": (HUGE_SIZES[t] if chance(rng, 0.15) else WIDE_SIZES[t]) if chance(rng, 0.7) else None,
+        "persons": sizes if chance(rng, 0.7) else None,
         "special": pick(rng, [0.0, 0.3, 0.6]),
         "nonfinite": chance(rng, 0.5),
         "enum": chance(rng, 0.5),
